@@ -131,6 +131,11 @@ def h_step(comp: int, op: int, sk: int, sd: int, ss: int, ek: int, ed: int, es: 
     c = _new(comp)
     _store(c, comp, sk, sd, ss, ek, ed, es, hasdur, dd, ds, utc)
     arg = _val(ak, ad, asec, utc)
+    return _apply_and_check(c, comp, op, arg, add, ads, utc)
+
+
+def _apply_and_check(c, comp, op, arg, add, ads, utc):
+    """one mutator on the stored state, then the invariant and identities"""
     name = OPS[op]
     endname = _endname(comp)
     if name == "set_start":
@@ -292,3 +297,53 @@ def h_step_pool(comp: int, op: int, sk: int, ek: int, hasdur: bool, dd: int, dsi
     sk = _cc(sk, 4); ek = _cc(ek, 4); ak = max(1, _cc(ak, 4)); dd = _cc(dd, 2)
     ds = SEC_POOL[_cc(dsi, len(SEC_POOL))]
     return h_step(comp, op, sk, 1, 36000, ek, 2, 36000, bool(hasdur), dd, ds, ak, 1, 36000, dd, ds)
+
+
+# real zoned values across a daylight-saving transition, built at import (C datetimes with a real
+# ZoneInfo; CrossHair's traced datetime class is not involved): Europe/Berlin switches on 2024-03-31
+from datetime import timezone as _timezone
+from zoneinfo import ZoneInfo as _ZoneInfo
+_BERLIN = _ZoneInfo("Europe/Berlin")
+_ZV = {}
+for _d in (1, 2, 3):
+    _ZV[(1, _d)] = date(2024, 3, 29 + _d) if _d < 3 else date(2024, 4, 1)
+    _base = datetime(2024, 3, 30, 12, 0) + timedelta(days=_d - 1)
+    _ZV[(2, _d)] = _base
+    _ZV[(3, _d)] = _base.replace(tzinfo=_timezone.utc)
+    _ZV[(4, _d)] = _base.replace(tzinfo=_BERLIN)
+_ZDUR = [timedelta(0), timedelta(hours=1), timedelta(days=1), timedelta(days=1, hours=1)]
+
+
+def _naive_aware_mix(a, b):
+    return (a == 2 and b in (3, 4)) or (b == 2 and a in (3, 4))
+
+
+def h_step_zoned(comp: int, op: int, sk: int, ek: int, ed: int, hasdur: bool, di: int, ak: int, ad: int, adi: int) -> bool:
+    """
+    The inductive step with ZONED values (value kind 4: Europe/Berlin, noon of the day before, the day
+    of and the day after the 2024 spring transition) in at least one of the stored start, the stored
+    end and the argument, next to date / floating / UTC values: wall-clock arithmetic across the
+    transition (end == start + DURATION, duration == end - start as Python defines them).
+
+    pre: 0 <= comp <= 1 and pinned("comp", comp)
+    pre: 0 <= op < len(OPS) and pinned("op", op)
+    pre: 0 <= sk <= 4 and 0 <= ek <= 4 and 2 <= ed <= 3 and 1 <= ak <= 4 and 1 <= ad <= 2
+    pre: 0 <= di < len(_ZDUR) and 0 <= adi < len(_ZDUR)
+    pre: sk == 4 or ek == 4 or ak == 4
+    pre: not (ek != 0 and hasdur)
+    pre: not _naive_aware_mix(sk, ek) and not _naive_aware_mix(sk, ak) and not _naive_aware_mix(ek, ak)
+    post: _
+    """
+    comp = pin("comp", comp); op = pin("op", op)
+    sk = _cc(sk, 5); ek = _cc(ek, 5); ak = max(1, _cc(ak, 5))
+    ed = 2 if ed == 2 else 3
+    ad = 1 if ad == 1 else 2
+    c = _new(comp)
+    if sk:
+        c.add("DTSTART", vDDDTypes(_ZV[(sk, 1)]), encode=0)
+    if ek:
+        c.add(_endname(comp), vDDDTypes(_ZV[(ek, ed)]), encode=0)
+    if hasdur:
+        c.add("DURATION", vDuration(_ZDUR[_cc(di, len(_ZDUR))]), encode=0)
+    adur = _ZDUR[_cc(adi, len(_ZDUR))] if OPS[op] == "set_DURATION" else timedelta(0)
+    return _apply_and_check(c, comp, op, _ZV[(ak, ad)], adur.days, adur.seconds, None)
